@@ -1,6 +1,8 @@
 import Model
 import Proofs.Walk
 import Proofs.Visits
+import Proofs.NoIdleGlobal
+import Proofs.WFCheck
 /-!
 C08 — no eligible working time is left idle.
 
@@ -93,5 +95,60 @@ theorem task_no_idle (e : Env) (wf : WF e) (σ : St) (t r : Nat)
       (usageOf ((scheduleTask e σ t).1.led.get r p.2.cur).usage t ≠ none ↔
         (available e (reserveStep p.1 p.2 r) r p.2.cur && taskLimitsOk e (reserveStep p.1 p.2 r) t p.2.cur r) = true) :=
   scheduleTask_no_idle e wf σ t r hinv hel hb hf hnd hclean hok
+
+/-! ### whole projects, in terms of the final ledger -/
+
+/-- an effort task allocated to the single leaf resource `r` (no alternative), `r` and its groups without limits, the task and
+    its containers without limits, no start of its own -/
+theorem eligU_of_single (e : Env) (t r : Nat) (hlf : (e.taskD t).leaf = true) (ha : (e.taskD t).hasAlloc = true)
+    (hm : (e.taskD t).milestone = false) (hpos : 0 < (e.taskD t).effort)
+    (hal : (e.taskD t).alloc = [r]) (halt : (e.taskD t).alt = []) (hns : (e.taskD t).startProvided = false)
+    (hrl : resLimitIds e r = []) (htl : taskLimitIds e t = []) (hrleaf : (e.resD r).leaf = true) : EligU e t r :=
+  ⟨⟨hlf, ha, hm, hpos, fun σ c => by rw [hal, halt]; exact selectBest_single e σ r _ c⟩, hns, hrl, htl, hrleaf⟩
+
+/-- **C08 for whole projects (forward mode)** (`Proofs/NoIdle`, `Proofs/NoIdleGlobal`, `Proofs/Solid`): after scheduling ANY
+    well-formed project, for every forward effort task `t` reported as scheduled, without a start of its own, whose single
+    selected resource `r` is an unlimited leaf: every predecessor is scheduled, and between the slot of the dependency bound —
+    the latest of the project start, an inherited start and every predecessor's (start | end) + gap in the FINAL schedule —
+    and any slot `L` in which `t` is booked (in particular the last one, which holds its end), every slot in which `r` is on
+    shift and not on leave carries a booking in the final ledger.  The task never waits, and never pauses, while its resource
+    could work for it. -/
+theorem no_idle_final (e : Env) (wf : WF e) (tr : Tree e) (t r : Nat) (hel : EligU e t r)
+    (hs : ((runScenario e).tst t).scheduled = true) (hf : ((runScenario e).tst t).forward = true) :
+    (∀ dp ∈ (e.taskD t).allDeps, ((runScenario e).tst dp.target).scheduled = true) ∧
+    ∀ L, usageOf ((runScenario e).led.get r L).usage t ≠ none →
+      ∀ i, boundSlot e (runScenario e) t ≤ i → i ≤ L → e.onShift r i = true → e.leaveMark r i = false →
+        ((runScenario e).led.get r i).usage ≠ [] :=
+  runScenario_doneIdle e wf tr t r hel
+    (runScenario_scheduled_done e t ⟨hel.el.leaf, hel.el.effort, hel.el.nomile⟩ hs) hf
+
+/-- the same for the environment elaborated from a project description, under the decidable checks -/
+theorem no_idle_final_elab (p : RawProj) (h : wfCheck (elaborate p).env = true) (htr : treeCheck (elaborate p).env = true)
+    (t r : Nat) (hel : EligU (elaborate p).env t r)
+    (hs : ((runScenario (elaborate p).env).tst t).scheduled = true)
+    (hf : ((runScenario (elaborate p).env).tst t).forward = true) :
+    ∀ L, usageOf ((runScenario (elaborate p).env).led.get r L).usage t ≠ none →
+      ∀ i, boundSlot (elaborate p).env (runScenario (elaborate p).env) t ≤ i → i ≤ L →
+        (elaborate p).env.onShift r i = true → (elaborate p).env.leaveMark r i = false →
+        ((runScenario (elaborate p).env).led.get r i).usage ≠ [] :=
+  (no_idle_final _ (wfCheck_sound _ h) (treeCheck_sound _ htr) t r hel hs hf).2
+
+/-- what makes "not available" mean "booked": in every state a scenario run ends in, a slot without entries still has room
+    (a start-offset reservation or a team levelling never fills a slot by itself) and a marked slot carries an entry -/
+theorem reservations_never_fill_a_slot (e : Env) (wf : WF e) : Solid e (runScenario e) :=
+  runScenario_closed (solid_closed e wf) wf (solid_init e wf)
+
+/-- non-vacuity: b (1 h) depends on a (20 min) with a gap of 90 min, one resource -/
+def gapProj : RawProj :=
+  { G := 3600, start := 1736121600, stop := 1737331200,
+    res := [{}],
+    tasks := [{ effort := some (1/3), alloc := some ([0], []) },
+              { effort := some 1, alloc := some ([0], []), deps := [{ target := 0, gap := 5400 }] }] }
+
+example : wfCheck (elaborate gapProj).env = true := by decide +kernel
+example : treeCheck (elaborate gapProj).env = true := by decide +kernel
+example : EligU (elaborate gapProj).env 1 0 :=
+  eligU_of_single _ 1 0 (by decide +kernel) (by decide +kernel) (by decide +kernel) (by decide +kernel) (by decide +kernel)
+    (by decide +kernel) (by decide +kernel) (by decide +kernel) (by decide +kernel) (by decide +kernel)
 
 end SP.C08
